@@ -84,9 +84,19 @@ def same_vals(a, b, rtol):
             if e > rtol * sc: return False, 'max diff %.3g on scale %.3g' % (e, sc)
     return True, ''
 
+_KEEP = []
 def make_object(case):
     """a PRISM object to post-process: solved, or hand-populated"""
     sd = case['sys']; n = sd['n']; L = sd['dom'][0]
+    if n >= 2 and case.get('decoy_order', True):
+        # another system of the same process that uses the SAME labels in another order (and arrays of it that stay alive)
+        try:
+            with warnings.catch_warnings():
+                warnings.simplefilter('ignore')
+                case_decoy = G.build_system(sd, types=list(reversed(T[:n]))).createPRISM()
+                _KEEP[:] = [case_decoy, MatrixArray(length=3, rank=n, types=list(T[1:n]) + [T[0]])]
+        except Exception:
+            pass
     s = G.build_system(sd); p = s.createPRISM()
     if case['obj'][0] == 'solved':
         res = C01.solve_quiet(p, None, case['obj'][1])
